@@ -152,6 +152,23 @@ CHECKS = {
           "quantises amplitudes to figures; rests carry none). Outside: Tonality degrees not in 0..11 (KeyError in to_code; not constructible "
           "from library symbols), melody/chord/score-level tags and tempo/pedal fields (not in the statement).",
  },
+ "C06": {
+  "text": "Theorems over an object-graph model (heap of note / melody / tonality / chord / score cells addressed by position): for every "
+          "program of the modelled operations with results fed back as operands - constructors, the copying note/melody/chord/score "
+          "methods, the SHARING ones (+ on notes and melodies, melody slices, to_melody, Score(list), score + chord, score[i], score[i:j] "
+          "which shares its last chord) and the in-place editor VoiceLeading.get_score (copy, then field assignment) - no cell that existed "
+          "before a step is changed by it, reachable heaps stay closed, and therefore after ANY continuation every object created so far "
+          "keeps its deep value (its fields and recursively those of everything it refers to). The model's object graph (values AND "
+          "sharing, canonical depth-first numbering of the whole pool) is compared with the library's after every program. The snapshot "
+          "monitor runs histories over every public zero-argument method/property of Note, Melody, Chord, Score, Tonality plus ~90 calls "
+          "with arguments, with the library singletons in the pool, comparing field-level snapshots of every live object and every library "
+          "symbol before/after each operation. One defect repaired (Metric.apply_to_melody(expand=False) appended to its argument).",
+  "note": "Partial: the theorem covers the modelled core (19 operation shapes); every other public operation is decided by the snapshot "
+          "monitor on sampled histories, not by a theorem. The model's editor refuses a write below the pre-copy heap size (returns None): "
+          "that the library never needs one is established by the correspondence, not proved about the library. Trusted: Coq kernel; id()-"
+          "based identity and the harness's field walker; numpy RandomState. Not explored: operations needing files/network/GUI (show, "
+          "from_midi...), in-place forms (item assignment, inplace=True) which the statement excludes.",
+ },
  "C07": {
   "text": "Theorems on the message lists handed to mido: per track, merging continuations and dropping silences yields exactly C03's sounding "
           "notes, independently of the other tracks; each sounding row gives exactly one note-on (key 60+pitch, velocity, at the onset) and "
